@@ -14,7 +14,7 @@
 From NsyncBase Require Import CSem.
 From NsyncGen Require Import Consts Sites.
 From NsyncModel Require Import NoteModel.
-From NsyncProof Require Import NoteProof NoteProof2 NoteProof3 NoteProof4 NoteProof7 NoteProof8 NoteProof11 NoteProof12 NoteProof13.
+From NsyncProof Require Import NoteProof14 NoteProof NoteProof2 NoteProof3 NoteProof4 NoteProof7 NoteProof8 NoteProof11 NoteProof12 NoteProof13.
 From NsyncProps Require Import Properties_C09.
 From Coq Require Import List ZArith.
 Import ListNotations.
@@ -28,6 +28,13 @@ Theorem C09_no_stuck_strong : forall w, reachable w -> broken (gh w) = false ->
 Proof. exact no_stuck_strong. Qed.
 
 (* ---- the shape fact behind it: which frames can be on top of a call stack ---- *)
+(* the in-call form (fourth review): some thread INSIDE a call, not in the semaphore wait of nsync_note_wait => some thread INSIDE a call
+   (non-empty stack) takes a step that changes the world; C09_no_stuck_strong above can also be met by a thread beginning its next call *)
+Theorem C09_no_stuck_incall : forall w, reachable w -> broken (gh w) = false ->
+  (exists t f rest, stk w t = f :: rest /\ ~ (exists n dl d rest', stk w t = AWait n dl (S1 d) :: rest')) ->
+  exists t c, stk w t <> [] /\ fst (step1 w t c) <> w.
+Proof. exact no_stuck_incall. Qed.
+
 Theorem C09_top_frame : forall w t f rest, reachable w -> stk w t = f :: rest -> topok f.
 Proof. intros w t f rest R. exact (InvT_reachable w R t f rest). Qed.
 Theorem C09_step_changes : forall w t c, reachable w -> stk w t <> [] -> snd (step1 w t c) <> EvBlocked ->
@@ -63,3 +70,4 @@ Print Assumptions C09_step_changes.
 Print Assumptions C09_lock_holder_rank_strong.
 Print Assumptions C09_disc_holder_rank_strong.
 Print Assumptions C09_strong_example.
+Print Assumptions C09_no_stuck_incall.
